@@ -25,7 +25,7 @@ NAMES = ["ax", "ay", "az", "tagx", "tagy", "tagz", "rnd"]
 
 
 def cases(tier, seed):
-    n = 14 if tier == "quick" else 80
+    n = 14 if tier == "quick" else 300
     rng = random.Random(seed + 1600)
     cs = []
     for i in range(n):
